@@ -20,7 +20,7 @@ ares_status_t ares_buf_append(ares_buf_t *b, const unsigned char *d, size_t n)
   if (n == 8 && memcmp(d, "ip6.arpa", 8) == 0) return ev(E_STR6, 0);
   __CPROVER_assert(0, "C13: the reverse-map suffix is in-addr.arpa or ip6.arpa"); return ARES_EFORMERR;
 }
-char *ares_buf_finish_str(ares_buf_t *b, size_t *len) { g_finished++; return &str_tok; }
+char *ares_buf_finish_str(ares_buf_t *b, size_t *len) { g_finished++; return (g_fail && nondet_bool()) ? NULL : &str_tok; /* invalidates the buffer on every outcome (buf.finish_oom) */ }
 static unsigned char hexch(unsigned n) { return (unsigned char)(n < 10 ? '0' + n : 'a' + (n - 10)); }
 void h_addr_to_ptr(void)
 {
@@ -28,7 +28,7 @@ void h_addr_to_ptr(void)
   g_ne = 0; g_created = g_destroyed = g_finished = 0; g_fail = nondet_bool();
   char *r = ares_dns_addr_to_ptr(&a);
   if (a.family != AF_INET && a.family != AF_INET6) { __CPROVER_assert(r == NULL && g_created == 0, "C13: no reverse name for other address families"); return; }
-  if (r == NULL) { __CPROVER_assert(g_fail && g_destroyed == g_created && g_finished == 0, "C13/C14: failure only on out of memory, buffer released"); return; }
+  if (r == NULL) { __CPROVER_assert(g_fail && g_destroyed + g_finished == g_created, "C13/C14: failure only on out of memory, buffer released exactly once (destroyed, or consumed by the failed finish)"); return; }
   __CPROVER_assert(g_created == 1 && g_finished == 1 && g_destroyed == 0, "C13: the finished string is the buffer's content, handed over once");
   if (a.family == AF_INET) {
     __CPROVER_assert(g_ne == 9, "C13: d.c.b.a.in-addr.arpa has four octets and the suffix");
